@@ -1511,6 +1511,7 @@ func (s *Server) publishSysTopics() {
 		s.Topics.RetainMessage(pk.Copy(false))
 		s.publishToSubscribers(pk)
 	}
+	atomic.StoreInt64(&s.Info.Retained, int64(s.Topics.Retained.Len()))
 
 	s.hooks.OnSysInfoTick(info)
 }
@@ -1754,6 +1755,7 @@ func (s *Server) clearExpiredRetainedMessages(now int64) {
 			s.hooks.OnRetainedExpired(filter)
 		}
 	}
+	atomic.StoreInt64(&s.Info.Retained, int64(s.Topics.Retained.Len()))
 }
 
 // clearExpiredInflights deletes any inflight messages which have expired.
